@@ -118,7 +118,7 @@ def bstep (m : BMon) (ts : List String) : BMon × String :=
       | .reject c d => (m, s!"reject {c} {d}")
       | .ok =>
         let hits := if f == "mem" then memHits else (f != "none" && faultHits)
-        let expectErr := hits && (f == "err" || f == "mem")
+        let expectErr := hits && (f == "err" || f == "mem" || f == "swallow")
         let expectAll := !hits
         if expectErr && ret != "err" && ret != "memlimit" then (m, s!"reject error-lost driver failed but BreadthFirst returned {ret}")
         else if !expectErr && ret != "ok" then (m, s!"reject spurious-error BreadthFirst returned {ret}")
